@@ -739,6 +739,8 @@ pub struct Property {
     /// Optional extra step run before the families (self-tests, child
     /// process batteries...). Returns violations.
     pub prelude: Option<Box<dyn Fn(&Ctx, &Recorder) -> Result<Vec<Violation>, String> + Sync>>,
+    /// Optional step run after the families (e.g. to record measured extremes).
+    pub epilogue: Option<Box<dyn Fn(&Ctx, &Recorder) + Sync>>,
 }
 
 pub fn write_evidence(ctx: &Ctx, prop: &Property, rec: &Recorder, violations: usize) {
@@ -893,6 +895,9 @@ pub fn run_property(ctx: &Ctx, prop: &Property, only_family: Option<&str>) -> i3
             rec.evaluations.load(Ordering::Relaxed)
         );
         violations.extend(v);
+    }
+    if let Some(epi) = &prop.epilogue {
+        epi(ctx, &rec);
     }
     if let Some(msg) = ctx.infra.lock().unwrap().clone() {
         write_evidence(ctx, prop, &rec, violations.len());
